@@ -13,6 +13,7 @@ import array
 import hashlib
 
 from . import real
+from .watchdog import RunTimeout
 
 SOURCE_KINDS = ("bytes", "bytearray", "list", "tuple", "memoryview", "array", "iter", "gen", "counting")
 
@@ -188,7 +189,7 @@ class Task:
             if isinstance(self.counter, CountingSource):
                 self.calls_at_end = (self.counter.pulls, self.counter.calls, self.counter.stops)
         except BaseException as e:  # noqa: recorded, classified by the oracles
-            if isinstance(e, (KeyboardInterrupt, SystemExit, MemoryError)):
+            if isinstance(e, (KeyboardInterrupt, SystemExit, MemoryError, RunTimeout)):
                 raise
             self.done = True
             self.exc = e
